@@ -23,6 +23,9 @@ from fixtures.make_ccd import main as make_ccd
 R = Run("C04", "small AtomArrays / AtomArrayStacks through set_structure -> serialise -> parse -> get_structure for CIF, BinaryCIF "
                 "and compressed BinaryCIF; model and altloc selection vs per-row recomputation")
 _tmp = tempfile.mkdtemp(prefix="verif-ccd-")
+import atexit
+import shutil
+atexit.register(shutil.rmtree, _tmp, True)
 ccd = os.path.join(_tmp, "components.bcif")
 make_ccd(ccd)
 info.set_ccd_path(ccd)
@@ -199,6 +202,35 @@ for n in (3, 40, 200):
         for flavour in ("cif", "bcif", "bcif-compressed"):
             R.check("write-read cycle returns an equal structure", f"{flavour} unavailable (NaN) B-factors / occupancies",
                     {"atoms": n, "nan_at": list(nan_at), "flavour": flavour}, lambda n=n, nan_at=nan_at, flavour=flavour: nan_case(n, nan_at, flavour))
+
+
+def cap_case(cap, side, flavour):
+    """a bond between a canonical residue and a non-canonical neighbour (terminal caps, ligands) is no implicit
+    standard link: it is written to struct_conn and comes back"""
+    if side == "after":
+        rows = [("ALA", 7, "N", "N", False), ("ALA", 7, "CA", "C", False), ("ALA", 7, "C", "C", False), (cap, 9, "N" if cap == "NH2" else "C1", "N" if cap == "NH2" else "C", True)]
+        bonds = [(0, 1, 1), (1, 2, 1), (2, 3, 1)]
+    else:
+        rows = [(cap, 3, "C" if cap == "ACE" else "C1", "C", True), ("ALA", 5, "N", "N", False), ("ALA", 5, "CA", "C", False), ("ALA", 5, "C", "C", False)]
+        bonds = [(0, 1, 1), (1, 2, 1), (2, 3, 1)]
+    n = len(rows)
+    a = struc.AtomArray(n)
+    a.chain_id[:] = "A"
+    a.res_name[:] = [r[0] for r in rows]
+    a.res_id[:] = [r[1] for r in rows]
+    a.atom_name[:] = [r[2] for r in rows]
+    a.element[:] = [r[3] for r in rows]
+    a.hetero[:] = [r[4] for r in rows]
+    a.coord = np.arange(n * 3, dtype=np.float32).reshape(n, 3)
+    a.bonds = struc.BondList(n, np.array(bonds))
+    b, g = cycle(a, flavour, ())
+    return same(a, b, ())
+
+
+for cap, side in (("NH2", "after"), ("LIG", "after"), ("ACE", "before"), ("LIG", "before")):
+    for flavour in ("cif", "bcif", "bcif-compressed"):
+        R.check("write-read cycle returns an equal structure", f"{flavour} bond to a non-canonical neighbour", {"cap": cap, "side": side, "flavour": flavour},
+                lambda cap=cap, side=side, flavour=flavour: cap_case(cap, side, flavour))
 
 
 def snapshot_case(cfg, flavour):
